@@ -6,10 +6,10 @@ QUERIES = [
     what='enqueued <=> level >= logger level (real macros + real LoggerBase::should_log_statement); argument expression evaluated <=> enqueued; static/dynamic level carried correctly'),
 ] + [
   Q('sink_filters_%d_%d' % (nf1, f2), H, 'h_sink_filters', defines=['NF1=%d' % nf1, 'F2=%d' % f2], unwind=6, models=['m_throw.c'], libmodels=['m_string.c'],
-    tier='quick' if (nf1, f2) in ((2, 0), (1, 0), (0, 1)) else 'thorough', timeout=280 if (nf1, f2) == (2, 0) else None,
+    tier='quick' if (nf1, f2) in ((2, 0), (1, 0), (0, 1)) else 'thorough', timeout=280 if nf1 >= 2 else None,
     bounds='two sinks with symbolic thresholds; sink 1 has %d filter(s), sink 2 has %d, verdicts symbolic; statement levels symbolic; the last filter of sink 1 is added between two decisions' % (nf1, f2),
     what='real Sink::apply_all_filters/add_filter: written <=> level >= threshold AND all filters accept, independently per sink; local filter copy refreshed after add_filter')
-  for nf1 in (0, 1, 2) for f2 in (0, 1)] + [
+  for nf1 in (0, 1, 2, 3) for f2 in (0, 1)] + [
   Q('event_level', H, 'h_event_level', unwind=4, models=['m_throw.c'],
     bounds='all static/dynamic level combinations on a reused transit-event slot',
     what='TransitEvent::log_level reports exactly the given dynamic level, and the static level when the metadata is static'),
